@@ -83,6 +83,9 @@ def instantiate_namespace(namespace):
             instantiated_content.append(element)
 
     instantiated_content.extend(typedef_content)
+    # Keep the parsed declarations, so that a typedef further down in the module
+    # still finds the templates of this namespace.
+    namespace.declarations = namespace.content
     namespace.content = instantiated_content
 
     return namespace
